@@ -286,6 +286,20 @@ pub fn build(quick: bool) -> Vec<Scenario> {
             }
         }
     }
+    // the timer may fire while the waiter is still registering (clock advance with runnable threads + one switch): the
+    // time-out must not get lost
+    for api in apis {
+        if matches!(api, Api::Sleep) {
+            continue;
+        }
+        v.push(
+            Scenario::new("C08", "timer_fires_during_subscribe", format!("sweep.{}.co.1000000ns.timer_fires_during_subscribe", name_of(api)), Arc::new(move |e| sweep_member(e, api, true, MS)))
+                .t2()
+                .vt_horizon(50 * MS)
+                .horizon(5_000)
+                .bound(2),
+        );
+    }
     // the event races with the timeout
     for api in [Api::SemWaitTimeout, Api::MpscRecvTimeout] {
         for (d, at) in [(2 * MS, MS), (2 * MS, 2 * MS), (MS, 3 * MS)] {
